@@ -41,8 +41,21 @@ THEOREMS = [
     "Ural.Props.C08.url_trailing_dot",
     "Ural.Props.C08.url_host_bracketed",
     "Ural.TldUrl.protoLen_bare",
+    # audit of session 4
+    "Ural.Props.C08.is_valid_tld_same_decoding",
+    "Ural.Props.C08.punyLaws_demo",
+    "Ural.Props.C08.url_split_rejoin",
+    "Ural.Props.C08.url_domain_is_suffix_plus_one",
+    "Ural.Props.C08.url_rejoin_of_parts",
+    "Ural.Props.C08.url_nfkc_rejected",
+    "Ural.TldUrl.urlHost_lead'",
+    "Ural.TldUrl.urlHost_lead_nfkc",
 ]
-TABLE_OBLIGATIONS = ["Ural.Props.C08.special_hosts_probes", "Ural.Props.C08.protocol_pattern_unchanged"]
+TABLE_OBLIGATIONS = [
+    "Ural.Props.C08.special_hosts_probes",
+    "Ural.Props.C08.protocol_pattern_unchanged",
+    "Ural.Props.C08.nfkc_check_charwise",
+]
 RULE = (
     "Kinds of cases. 'h': a group of hostnames against the bundled rule list (one group per bundled rule: the rule "
     "as a host with its wildcard instantiated by a fresh label and by every label that also starts a longer rule, "
@@ -55,11 +68,13 @@ RULE = (
     "goes to the Lean model, which parses it itself (safe_urlsplit + PROTOCOL_RE + urlsplit + .hostname of "
     "Model/TldUrl.lean) and answers [hostname, split_suffix, get_domain_name, has_valid_suffix, extract_suffix, "
     "has_valid_tld] or ValueError; compared with the real functions on the same string. Strings outside the stated "
-    "domain of the parser model (non-ASCII case mapping, NFKC check, IPv4 tail in an IPv6 literal; decided from the "
+    "domain of the parser model (non-ASCII case mapping, IPv4 tail in an IPv6 literal; decided from the "
     "real parser's answer) and, for the corpus, every string, also go through the hostname-level op (real parser "
     "ships the hostname). is_valid_tld on the last label, upper-cased, dotted, punycoded and decoded. The oracle "
     "(publicsuffix algorithm run directly over the rule list) applies to the spellings whose hostname is h by the "
-    "URL standard. 'u': host-less URLs, IP literals, localhost, unbalanced brackets, trailing dots, empty labels "
+    "URL standard. 'u': host-less URLs, IP literals, localhost, unbalanced brackets, trailing dots, empty labels, and "
+    "(nfkc-urls) every code point whose NFKC form differs from itself and holds one of / ? # @ : . [ ] % (urlsplit's "
+    "_checknetloc refuses the first five in the authority) in host / userinfo / port / path positions "
     "(model vs implementation). 'trie': the trie ural/tld.py built at import time, read through name mangling, "
     "against the model's trie node by node (leaf flag, exception set, children; root + one case per 40 top-level "
     "labels); 'tlds': TLD_SET against the model's list. 'syn': a rule set over labels {a,b,c,*} with optional "
@@ -91,8 +106,11 @@ TRUSTED = [
     "Py/UrlAccessors.lean) is compared with the real parser on every URL string of this run (the hostname the model "
     "extracts is part of every compared row), not proved equal to it; PROTOCOL_RE is a hand-written matcher whose "
     "pattern string is regenerated and compared (table obligation protocol_pattern_unchanged). Outside the parser "
-    "model: a non-ASCII character in the host that str.lower changes, the NFKC check of urlsplit, an IPv4 tail inside an "
-    "IPv6 literal — such strings fall back to the hostname the real parser extracts",
+    "model: a non-ASCII character in the host that str.lower changes, an IPv4 tail inside an "
+    "IPv6 literal — such strings fall back to the hostname the real parser extracts. The NFKC check of urlsplit "
+    "(_checknetloc) is modelled in Model/TldUrl.lean character by character over the table of refused code points OBSERVED on "
+    "the running urlsplit (Gen.nfkcDelimCodes, regenerated every run); that character by character is enough: "
+    "table obligation nfkc_check_charwise + the nfkc-urls class",
     "the trie the model works on is built by the model's add from the regenerated list AND compared node by node with the "
     "private state of the trie ural/tld.py built at import time (SuffixTrie.__root through name mangling); TLD_SET likewise",
     "attempt_to_decode_idna (CPython idna codec) is a parameter of the model; the driver uses the table "
@@ -102,9 +120,10 @@ TRUSTED = [
 ASSUMPTIONS = [
     "hostnames are sequences of non-empty labels; special hosts (localhost, IPv4, IPv6) are outside the quantifier",
     "PunyLaws (idempotence of decoding on lower-cased labels, a dot-free label decodes to a dot-free label) for "
-    "the two punycode theorems",
+    "is_valid_tld_puny_insensitive: 'punycode-insensitively' is the law idem, assumed of the codec and tested on every decoded "
+    "label, not proved of CPython's idna; is_valid_tld_same_decoding needs no law; punyLaws_demo is a non-identity instance",
     "URL-level invariance theorems: the side conditions of HostChars / NetlocChars / RestOk / Lead.Ok (host text without "
-    "@ : [ ] %, authority without / ? # tab CR LF, scheme of 1-64 ASCII letters, scheme-less spelling not of the form "
+    "@ : [ ] %, authority without / ? # tab CR LF and without NFKC look-alikes of / ? # @ : (on which urlsplit raises: url_nfkc_rejected), scheme of 1-64 ASCII letters, scheme-less spelling not of the form "
     "letters://...) — explicit hypotheses; url_functions_via_host / url_psl_spec / url_negative_cases have none",
 ]
 UNPROVED = (
@@ -297,8 +316,10 @@ def outside_model(url):
 
     try:
         r = safe_urlsplit(url)
-    except ValueError as e:
-        return "nfkc-check" if "NFKC" in str(e) else None
+    except ValueError:
+        # the bracket checks AND (since the audit of session 4) the NFKC check of urlsplit are modelled
+        # (TldUrl.nfkcRejects over the regenerated table Gen.nfkcDelimCodes): a ValueError is inside the model
+        return None
     nl = r.netloc
     if not nl.isascii():
         hi = nl.rpartition("@")[2]
@@ -445,6 +466,30 @@ NEGATIVE_URLS = [
 ]
 
 
+def nfkc_urls():
+    """the NFKC check of urlsplit (`_checknetloc`), as a generator class derived from the RUNNING interpreter: every code
+    point whose NFKC form differs from itself and holds a character the URL syntax gives a meaning to (the five that
+    urlsplit refuses — / ? # @ : — and, as controls that must NOT be refused, . [ ] % and the fullwidth / compatibility
+    letters and digits), in the host, in the userinfo, in the port, and behind the authority (path, query: never refused)"""
+    import unicodedata
+
+    cps = []
+    for cp in range(0x80, 0x30000):
+        if 0xD800 <= cp <= 0xDFFF:
+            continue
+        c = chr(cp)
+        n = unicodedata.normalize("NFKC", c)
+        if n != c and any(d in n for d in "/?#@:.[]%"):
+            cps.append(c)
+    # compatibility forms of ASCII letters / digits that str.lower leaves alone, and a combining sequence
+    cps += ["\uff41", "\uff10", "\u2460", "\u00aa", "\ufb01", "e\u0301", "\u212b"]
+    out = []
+    for c in cps:
+        out += ["http://a%sb.co.uk/p" % c, "a%sb.co.uk" % c, "http://u%s@a.co.uk/" % c, "http://a.co.uk:8%s/" % c,
+                "http://a.co.uk/p%s?q=%s#%s" % (c, c, c), "//%s.co.uk" % c, "http://%s" % c, "http://x.%s/" % c]
+    return out
+
+
 def _derive_xw(rule, idx):
     """hostnames for one exception or wildcard rule of the bundled list, exhaustively: the rule as a host (the wildcard
     instantiated by a fresh label and by EVERY sibling label — every label that continues the rest of the rule in
@@ -533,6 +578,9 @@ def cases(rng, tier):
     yield {"k": "u", "urls": SPECIAL_HOSTS_AS_URLS + ["http://", "", "/path", "http:///p"], "tag": "special-urls"}
     for i in range(0, len(NEGATIVE_URLS), 12):
         yield {"k": "u", "urls": NEGATIVE_URLS[i : i + 12], "tag": "negative-urls"}
+    nu = nfkc_urls()
+    for i in range(0, len(nu), 40):
+        yield {"k": "u", "urls": nu[i : i + 40], "tag": "nfkc-urls"}
     # ---- the trie that ural/tld.py built at import time, node by node, against the model's trie ----
     yield {"k": "trie", "tops": None}
     yield {"k": "tlds"}
